@@ -467,6 +467,8 @@ class CT:
                 if kind in ("Range", "RangeTo", "RangeFrom", "RangeFull"):
                     hi = self.t(f_["end"], depth + 1) if "end" in f_ else "len(%s)" % base
                     return "%s[%s..%s]" % (base, lo, hi)
+        if nm in ("wrapping_mul", "wrapping_add", "min", "max", "saturating_add", "saturating_mul") and len(args) == 2:
+            args = sorted(args)
         ty = ""
         if nm in ("from", "into", "try_from", "try_into", "size_of", "default", "new", "cast"):
             ty = "::<%s>" % ",".join([c.get("self_ty") or ""] + list(c.get("args") or []))[:80]
@@ -783,7 +785,8 @@ def _path_outcome(F, fn, p, extra, hide_calls=(), renames=None):
 
     def flush():
         for k in sorted(seg):
-            evs.append("%s := %s" % (k, seg[k]))
+            if seg[k] != k and seg[k] != "*" + k:      # writing back the value a place already holds is no effect
+                evs.append("%s := %s" % (k, seg[k]))
         seg.clear()
     for e in p.events:
         if e["k"] == "call" and not e.get("modelled") and not e.get("inlined"):
@@ -809,6 +812,10 @@ def _path_outcome(F, fn, p, extra, hide_calls=(), renames=None):
     if p.ret is not None:
         ret = ct.t(norm(ct.resolve(p.ret, top_ty=fn.locals[0]["ty"])))
     text = "%s => %s%s" % ("; ".join(evs) or "-", ret, "" if p.status == "return" else " [%s]" % p.status)
+    if p.status == "cut":
+        # exploration stopped at the loop bound: what was seen up to there depends on where the bound falls in the code, not on behaviour;
+        # the complete iterations below the bound are separate outcomes
+        text = "... [loop bound]"
     conjs = [list(lits)]
     for alts in alts_all:
         conjs = [c + a for c in conjs for a in alts]
@@ -894,7 +901,7 @@ def err_source(ret):
 def summarize(F, fn, max_visits=None, hide_calls=(), _nested=False, inline=inline_local, renames=None):
     _FACTS[0] = F
     if max_visits is None:
-        max_visits = 20 if fn.name == "finalize" and "CrcModifier" in (fn.impl_self or "") else 2
+        max_visits = 20 if fn.name == "finalize" and "CrcModifier" in (fn.impl_self or "") else 3
     eng = sym.Engine(F, inline=inline, max_visits=max_visits, max_depth=10, models=sym.SLICE_MODELS)
     paths = [p for p in eng.run(fn) if p.status != "infeasible"]
     outcomes = {}
